@@ -259,3 +259,46 @@ def _mol2_text_ensemble(V):
                  z3.And(*[to_z3(r.fields["_atomic_charges"].data[c][i], "real") == R3(to_z3(e.fields["_atomic_charges"].data[c][i], "real")) for c in range(2) for i in range(2)]))
     V.ensure("roundtrip/name-and-elements", I.and_(I.eq(r.fields["_name"], e.fields["_name"]),
                                                    *[I.eq(x.fields["element"], y.fields["element"]) for x, y in zip(e.fields["_atoms"].items, r.fields["_atoms"].items)]))
+
+
+# ------------------------------------------------------------------------------------------ a molecule that was itself read from a file
+@P.unit(f"{MOLQ}.dump_mol2", name="a molecule read from a foreign mol2 text (NO_CHARGES / BIOPOLYMER header), then given charges, writes text that reads back with those charges",
+        functions=[f"{MOLQ}.dump_mol2", f"{M.CLS['Structure']}.yield_from_mol2", "molli.parsing.mol2:read_mol2"])
+def _mol2_after_foreign_read(V):
+    """whatever the reader keeps from the header of the file a molecule came from must not make the writer produce text that molli
+    reads back differently (the charge model line decides whether the charge column is used at all)"""
+    I, st = V.I, V.st
+    T.use(st)
+    x = [V.sym(f"x{i}", "real") for i in range(6)]
+    ft = lambda v: T.Tok("float", v, ".4f")
+    hdr = V.choose([("SMALL", "NO_CHARGES"), ("BIOPOLYMER", "NO_CHARGES"), ("SMALL", "GASTEIGER")], "header-of-the-source-file")
+    text = T.SStr(["@<TRIPOS>MOLECULE\n", "foreign\n", "2 1 0 0 0\n", hdr[0] + "\n", hdr[1] + "\n", "\n", "@<TRIPOS>ATOM\n",
+                   T.SStr(["1 C1 ", ft(x[0]), " ", ft(x[1]), " ", ft(x[2]), " C.3 1 UNL 0.0000\n"]),
+                   T.SStr(["2 O1 ", ft(x[3]), " ", ft(x[4]), " ", ft(x[5]), " O.3 1 UNL 0.0000\n"]),
+                   "@<TRIPOS>BOND\n", "1 1 2 1\n"])
+    cls = V.cls(MOLQ)
+    V.witness(lambda ev: {"op": "mol2-after-foreign-read", "header": list(hdr), "signature": "mol2-after-foreign-read"})
+    V.cover()
+    try:
+        m = I.call(I.getattr_(cls, "loads_mol2"), [text], {})
+    except PyExc:
+        V.ensure("foreign/source-text-is-readable", z3.BoolVal(False))
+        return
+    V.ensure("foreign/source-text-is-readable", z3.BoolVal(True))
+    q = [V.sym("q0", "real"), V.sym("q1", "real")]
+    I.setattr_(m, "atomic_charges", NP.mk(list(q), "float"))
+    w = V.method(m, "dumps_mol2", [])
+    V.ensure("foreign/writer-returns-text", z3.BoolVal(w.returned))
+    if not w.returned:
+        return
+    try:
+        r = I.call(I.getattr_(cls, "loads_mol2"), [w.value], {})
+    except PyExc:
+        V.ensure("foreign/reader-accepts-the-written-text", z3.BoolVal(False))
+        return
+    V.ensure("foreign/reader-accepts-the-written-text", z3.BoolVal(True))
+    R3 = T.rounding(3)
+    qr = r.fields["_atomic_charges"].data
+    V.ensure("foreign/partial-charges-survive", z3.BoolVal(len(qr) == 2) if len(qr) != 2 else z3.And(*[to_z3(qr[i], "real") == R3(q[i].z) for i in range(2)]))
+    w2 = V.method(r, "dumps_mol2", [])
+    V.ensure("foreign/second-write-is-a-fixed-point", T.same_text(I, w.value, w2.value) if w2.returned else z3.BoolVal(False))
